@@ -20,6 +20,15 @@ if [ "${1:-}" = "C12" ] || { [ "${1:-}" = "replay" ] && grep -q '"property": "C1
   fi
   BUILDARGS=(-tags "verif overlay" -overlay "$OV/overlay.json")
 fi
+if [ "${1:-}" = "C19" ] || { [ "${1:-}" = "replay" ] && grep -q '"property": "C19"' "${2:-/dev/null}" 2>/dev/null; }; then
+  # separate free-running pass under the race detector (needs cgo); if it cannot be built the pass is skipped and said so
+  if CGO_ENABLED=1 go build -race -tags verif -o "$BIN.race.$$" ./cmd/vcheck 2> "$VERIF_DIR/bin/race.$$.log"; then
+    export VERIF_RACE_BIN="$BIN.race.$$"
+  else
+    echo "note: -race binary could not be built; race pass skipped" >&2
+  fi
+  rm -f "$VERIF_DIR/bin/race.$$.log"
+fi
 ( flock 9
   if ! go build "${BUILDARGS[@]}" -o "$BIN.tmp.$$" ./cmd/vcheck 2> "$VERIF_DIR/bin/build.$$.log"; then
     echo "HARNESS-ERROR: build against $VERIF_REPO failed:" >&2
@@ -30,5 +39,5 @@ fi
   rm -f "$VERIF_DIR/bin/build.$$.log"
   mv -f "$BIN.tmp.$$" "$BIN.$$"
 ) 9> "$VERIF_DIR/bin/.lock" || exit 2
-trap 'rm -f "$BIN.$$"; rm -rf "$VERIF_DIR/.work/overlay.$$"' EXIT
+trap 'rm -f "$BIN.$$" "$BIN.race.$$"; rm -rf "$VERIF_DIR/.work/overlay.$$"' EXIT
 "$BIN.$$" "$@"
